@@ -368,6 +368,10 @@ class TLSRecordLayer(object):
         else:
             allowedTypes = ContentType.application_data
             allowedHsTypes = None
+        if allowedHsTypes and not self._client:
+            # only servers send NewSessionTicket messages
+            allowedHsTypes = tuple(i for i in allowedHsTypes if
+                                   i != HandshakeType.new_session_ticket)
         try:
             try_once = True
             # perform a read even if we were asked to read 0 bytes, but only
